@@ -220,6 +220,9 @@ def run(facts, rep, tier, ctx):
     k = h.seek_rules(rep, "R02.4", "R02.4") + h.read_rules(rep, "R02.4") + h.writer_rules(rep, "R02.4", "R02.4", "R02.4t") + \
         h.handle_surface_rules(rep, "R02.4")
     rep.floor("in-memory handle obligations", k, 23)
+    # ... including where std's handles answer with an error: no argument of read/seek/write makes the in-memory handle panic
+    from . import c13 as _c13
+    _c13.sites_for(facts, rep, ctx["V"], "R02.4p", lambda r: bool(r.impl) and r.impl["self_ty"] in ("impls::memory::ReadableFile", "impls::memory::WritableFile"))
     wa = World(facts, True)
     rep.ob("R02.A", "async_vfs", "async world present", wa.present(), "", "")
     if wa.present():
